@@ -295,7 +295,43 @@ def r19_5(ctx):
     ctx.run_rule("R19.5", "count bookkeeping surfaces in trace counts", body, floor=20)
 
 
+def r19_6(ctx):
+    """Both impact entry points analyse the rule list *without* any earlier version of the rule
+    under analysis: the standalone one skips it while inserting, the project one removes it."""
+    F = ctx.facts
+
+    def body(r):
+        f = F.fn("api::impact::ImpactOutput::from_impact_project")
+        r.analysed(f)
+        pv = Prov(f, copies=True)
+        rm = [(bi, t) for bi, t, cal in f.calls() if cal and cal.key() == "router::Router::remove"]
+        ci = [(bi, t) for bi, t, cal in f.calls() if cal and cal.key() == "api::impact::ImpactOutput::compute_impacts"]
+        ok = len(rm) == 1 and len(ci) == 1 and f.dominates(rm[0][0], ci[0][0]) and rm[0][0] != ci[0][0]
+        r.ob("impact:project-removes-previous-version", ok, f.site, "Router::remove(rule.id) is executed on every path before compute_impacts" if ok else "the previous version of the analysed rule is not removed on every path (%d remove calls dominating: %s)" % (len(rm), ok))
+        if rm:
+            a = pv.operand(rm[0][1]["args"][1])
+            r.ob("impact:project-removes-the-analysed-rule", mentions_field(a, "id", "api::rule::Rule") and mentions_field(a, "rule"), f.loc(span_line(rm[0][1]["s"])), "removes %s" % show(a, f))
+            recv = pv.operand(rm[0][1]["args"][0])
+            r.ob("impact:project-removes-from-the-updated-router", mentions(recv, lambda x: x[0] == "call" and x[1] == UPDATE), f.loc(span_line(rm[0][1]["s"])), "on %s" % show(recv, f)[:80])
+        g = F.fn("api::impact::ImpactOutput::create_result")
+        r.analysed(g)
+        s = Sym(g, copies=True)
+        lps = [lp for lp in for_loops(g) if mentions_field(lp.source, "rules")]
+        rows = {}
+        if len(lps) == 1:
+            for p in lps[0].iteration_paths(s):
+                same = None
+                for a, v in p.conds:
+                    if a[0] == "call" and "PartialEq" in a[1] and (mentions_field(a[2][0], "id", "api::rule::Rule") and mentions_field(a[2][1], "id", "api::rule::Rule")):
+                        same = bool(v)
+                ins = any(e[0] == "call" and e[1] == "router::Router::insert" for e in p.events)
+                rows[same] = ins
+        r.ob("impact:standalone-skips-previous-version", rows == {True: False, False: True}, g.site, "a rule is inserted <=> its id differs from the analysed rule's id: %s" % rows)
+    ctx.run_rule("R19.6", "impact analyses drop any earlier version of the analysed rule", body, floor=3)
+
+
 def run(ctx):
+    r19_6(ctx)
     r19_1(ctx)
     r19_2(ctx)
     r19_3(ctx)
